@@ -258,7 +258,7 @@ def run_op(doc, op, rng):
 @contract(None, props=['C14'], bounded=BOUND + '; sequences of <= 12 read-only operations including raising ones')
 class read_only_api_is_pure:
     def inputs(g):
-        score, rng = doc_inputs(g)
+        score, rng = doc_inputs(g, hidden_bars=True)
         ops = [rng.choice(READ_OPS) for _ in range(rng.randint(1, 12))]
         return {'score': score, 'ops': ops, 'seed': rng.randrange(1 << 20)}
 
@@ -285,11 +285,47 @@ class read_only_api_is_pure:
         return True
 
 
+@contract(None, props=['C04', 'C05', 'C14'], bounded=BOUND + '; 2..5 requests served by one Exporter object (export_string with random options, get_spine_types)')
+class exporter_object_history_independent:
+    """An Exporter object that serves several requests answers each of them as a fresh Exporter would (the public API builds a
+    fresh one per call, Exporter.get_spine_types and callers that keep the object do not): whatever an exporter remembers between
+    requests must not change a later answer."""
+    def inputs(g):
+        score, rng = doc_inputs(g)
+        other = gen_score(rng)
+        reqs = []
+        for _ in range(rng.randint(2, 5)):
+            kind = rng.choice(['export', 'export', 'export', 'spine_types'])
+            inc = rng.choice([None, None, set(rng.sample(list(TokenCategory), rng.randint(1, 8))) | {TokenCategory.HEADER}])
+            exc = rng.choice([None, None, set(rng.sample(list(TokenCategory), rng.randint(1, 3)))])
+            reqs.append({'kind': kind, 'doc': rng.choice([0, 0, 1]), 'include': inc, 'exclude': exc, 'encoding': rng.choice(list(kp.Encoding)),
+                         'spine_types': rng.choice([None, None, ['**kern'], ['**kern', '**text']])})
+        return {'score': score, 'other': other, 'requests': reqs}
+
+    def post_each_request_as_on_a_fresh_exporter(score, other, requests):
+        from kernpy.core.generic import Generic
+        docs = [kp.loads(score.text())[0], kp.loads(other.text())[0]]
+
+        def serve(exporter, r):
+            try:
+                if r['kind'] == 'spine_types':
+                    return exporter.get_spine_types(docs[r['doc']], r['spine_types'])
+                kw = {k: r[k] for k in ('include', 'exclude', 'spine_types') if r[k] is not None}
+                return exporter.export_string(docs[r['doc']], Generic.parse_options_to_ExportOptions(kern_type=r['encoding'], **kw))
+            except Exception as e:
+                return 'EXC:' + type(e).__name__
+        shared = kp.Exporter()
+        for r in requests:
+            if serve(shared, r) != serve(kp.Exporter(), r):
+                return False
+        return True
+
+
 # ================================================================================================================ C15
 @contract(None, props=['C15'], bounded=BOUND + '; 40 intervals x 2 directions; core class = single notes without explicit accidentals')
 class transposed_document_moves_pitches_only:
     def inputs(g):
-        score, rng = doc_inputs(g, plain=False, chords=False, accidentals=False)
+        score, rng = doc_inputs(g, plain=False, chords=False, accidentals=False, hidden_bars=True)
         return {'score': score, 'interval': rng.choice(kp.AVAILABLE_INTERVALS), 'direction': rng.choice(['up', 'down'])}
 
     def requires(score):
@@ -345,7 +381,8 @@ class transposition_leaves_source_unchanged:
 class file_and_cli_paths_equal_api:
     def inputs(g):
         score, rng = doc_inputs(g)
-        return {'score': score, 'newline': rng.choice(['\n', '\r\n']), 'final': rng.random() < 0.7, 'mode': rng.choice(['single', 'dir', 'recursive']),
+        others = [gen_score(rng, kern_only=True, comments=False).text() for _ in range(3)]
+        return {'score': score, 'others': others, 'newline': rng.choice(['\n', '\r\n']), 'final': rng.random() < 0.7, 'mode': rng.choice(['single', 'dir', 'recursive']),
                 'opts': rng.choice([{}, {'encoding': kp.Encoding.eKern}, {'include': {TokenCategory.CORE, TokenCategory.STRUCTURAL}}, {'spine_ids': [0]}])}
 
     def post_load_equals_loads(score, newline, final):
@@ -406,6 +443,55 @@ class file_and_cli_paths_equal_api:
                 f.write(got.rstrip('\n'))
             kp.ekern_to_krn(nf, os.path.join(sub, 'c.krn'))
             return open(os.path.join(sub, 'c.krn'), encoding='utf-8', newline='').read() == kp.get_kern_from_ekern(got.rstrip('\n'))
+
+
+    def post_directory_runs_convert_every_file(score, others, mode):
+        """directory invocations: every *.krn / *.kern file of the directory (of the whole tree with -r, files of equal name in
+        different directories included) gets its own .ekrn next to it, equal to what the API produces for that file; nothing else"""
+        if mode == 'single' or score.headers[0] != '**kern':
+            return True
+        texts = [score.text()] + list(others)
+        layout = {'a.krn': texts[0], 'b.kern': texts[1], 'notes.txt': 'not a score', os.path.join('op1', 'a.krn'): texts[2],
+                  os.path.join('op1', 'trio', 'a.krn'): texts[3], os.path.join('op2', 'c.krn'): texts[1]}
+        env = dict(os.environ)
+        env['PYTHONPATH'] = os.environ.get('KERNPY_REPO', '/repo') + os.pathsep + env.get('PYTHONPATH', '')
+        with tempfile.TemporaryDirectory() as d:
+            for rel, text in layout.items():
+                os.makedirs(os.path.dirname(os.path.join(d, rel)), exist_ok=True)
+                with open(os.path.join(d, rel), 'w', encoding='utf-8') as f:
+                    f.write(text)
+            rec = ['-r'] if mode == 'recursive' else []
+            subprocess.run([sys.executable, '-m', 'kernpy', '--kern2ekern', '--input_path', d, '--verbose', '0'] + rec, capture_output=True, env=env, timeout=300)
+            for rel, text in layout.items():
+                if rel == 'notes.txt':
+                    continue
+                out = os.path.splitext(os.path.join(d, rel))[0] + '.ekrn'
+                expected = mode == 'recursive' or os.sep not in rel
+                if os.path.exists(out) != expected:
+                    return False
+                if expected:
+                    doc, _ = kp.loads(text)
+                    if open(out, encoding='utf-8').read() != kp.dumps(doc, spine_types=['**kern'], include=kp.BEKERN_CATEGORIES, encoding=kp.Encoding.eKern):
+                        return False
+            if os.path.exists(os.path.join(d, 'notes.ekrn')):
+                return False
+            # the way back, again over the directory: every .ekrn gets its .krn = what the API makes of its text
+            ekerns = {}
+            for root, _, names in os.walk(d):
+                for n in names:
+                    if n.endswith('.ekrn'):
+                        ekerns[os.path.join(root, n)] = open(os.path.join(root, n), encoding='utf-8').read()
+                    if n.endswith('.krn') or n.endswith('.kern'):
+                        os.remove(os.path.join(root, n))
+            subprocess.run([sys.executable, '-m', 'kernpy', '--ekern2kern', '--input_path', d, '--verbose', '0'] + rec, capture_output=True, env=env, timeout=300)
+            for path, ek in ekerns.items():
+                back = path[:-5] + '.krn'
+                expected = mode == 'recursive' or os.path.dirname(path) == d
+                if os.path.exists(back) != expected:
+                    return False
+                if expected and open(back, encoding='utf-8').read() != kp.get_kern_from_ekern(ek):
+                    return False
+        return True
 
 
 # ---- C15: the classes the property itself names as tracked findings ----------------------------------------------------------------------
@@ -535,14 +621,55 @@ class excerpt_is_self_contained:
         return False
 
 
+def rng_spines(g):
+    return g.choice('spines', [2, 2, 3])
+
+
+@contract(None, props=['C08'], bounded=BOUND + '; **kern-only, with signature changes in the middle of the score; measure ranges that contain no signature change')
+class excerpt_between_signature_changes:
+    """C08, explored class 'mid-score signature changes', the part that holds: an excerpt that contains no signature change itself
+    (the changes lie before it or after it) is well formed, re-imports, and its notes are governed as in the full score.  (Excerpts
+    that contain a change: known finding, see excerpt_known_classes.)"""
+    def inputs(g):
+        score, rng = kern_score(g, comments=False, signatures_first=True, mid_signatures=True, quiet=True, spines=rng_spines(g))
+        M = len(measures_of(score))
+        a = rng.randint(1, M)
+        return {'score': score, 'a': a, 'b': rng.randint(a, M)}
+
+    def requires(score, a, b):
+        starts = measures_of(score)
+        first = starts[a - 1]
+        last = (starts[b] - 1) if b < len(starts) else len(score.rows) - 1
+        inside = [ri for ri, r in enumerate(score.rows) if r.kind == 'interp' and first <= ri <= last and ri > starts[0]]
+        return len(score.rows[first].cells) == len(score.headers) and not inside
+
+    def post_well_formed_and_reimports(score, a, b):
+        return excerpt_is_self_contained.post_well_formed_and_reimports(score, a, b)
+
+    def post_same_governing_signatures(score, a, b):
+        return excerpt_is_self_contained.post_same_governing_signatures(score, a, b)
+
+
 @contract(None, props=['C08'], bounded='recorded scores of the classes the property names as tracked findings')
 class excerpt_known_classes:
     """Known findings (C08, named by the property): an excerpt that starts inside a split repeats the split row and its
     signature rows have the wrong width; a signature changed in the middle of the score."""
     def inputs(g):
-        return {'case': g.choice('case', ['starts-inside-split'])}
+        return {'case': g.choice('case', ['starts-inside-split', 'change-inside-null-spine'])}
+
+    def post_change_inside_excerpt(case):
+        # a spine that holds only null tokens from the start of the excerpt to a clef change inside it: the clef in force is taken
+        # for restated (null tokens do not stop the look-ahead) and the recovered clef row has one cell instead of two
+        if case != 'change-inside-null-spine':
+            return True
+        text = '**kern\t**kern\n*clefF4\t*clefG2\n=1\t=1\n4C\t.\n=2\t=2\n*clefG2\t*clefF4\n4d\t4D\n*-\t*-\n'
+        doc, _ = kp.loads(text)
+        ex = kp.dumps(doc, from_measure=1, to_measure=2, spine_types=['**kern'])
+        return walk_grid(ex)[0]
 
     def post_starts_inside_split(case):
+        if case != 'starts-inside-split':
+            return True
         text = '**kern\t**kern\n*clefG2\t*clefF4\n*\t*^\n4c\t4d\t4e\n*\t*v\t*v\n=\t=\n4f\t4g\n*-\t*-\n'
         doc, _ = kp.loads(text)
         ex = kp.dumps(doc, from_measure=1, to_measure=1, spine_types=['**kern'])
